@@ -5,7 +5,6 @@ import (
 	"encoding/gob"
 	"fmt"
 	"time"
-	"unsafe"
 
 	"github.com/valyala/fastjson"
 )
@@ -257,11 +256,8 @@ func ToRelationship(it Item) (*Relationship, error) {
 		return i, nil
 	case Relationship:
 		return &i, nil
-	case *Object:
-		return (*Relationship)(unsafe.Pointer(i)), nil
-	case Object:
-		return (*Relationship)(unsafe.Pointer(&i)), nil
 	default:
+		// NOTE: a plain Object is smaller than a Relationship and must not be reinterpreted as one
 		return reflectItemToType[Relationship](it)
 	}
 }
